@@ -1,5 +1,8 @@
 import Flowjaxv.Proofs.LogDet
 import Flowjaxv.Proofs.Rqs
+import Flowjaxv.Proofs.Planar
+import Flowjaxv.Proofs.Triangular
+import Flowjaxv.Proofs.NetLogDet
 /-!
 # C02 — the log-determinant is the log-determinant
 
@@ -252,5 +255,287 @@ theorem rqs_ld_antisym {C : Type} {p : Gen.RationalQuadraticSpline ℝ} (h : Rqs
 /-- the derivative the log-det is built from is positive everywhere (so the log is of a positive number) -/
 theorem rqs_derivative_pos {p : Gen.RationalQuadraticSpline ℝ} (h : Rqs.RqsWF p) (x : ℝ) :
     0 < p.derivative x := Rqs.rqs_derivative_pos h x
+
+
+/-! ### Planar and TriangularAffine -/
+
+/-- The n-dimensional form of the oracle (`Proofs/VecLd.lean`): `Bij.LdCorrectVecWith b n D M` says that at every
+`v ∈ D` the forward map the bijection computes on lists of length `n`, read in coordinates
+(`VecLd.coordMap`), has Fréchet derivative `toLin' (M v)` (Mathlib's `HasFDerivAt`), returns a list of
+length `n`, `det (M v) ≠ 0`, and the log-det returned with the forward map is `log |det (M v)|`.
+
+**Planar, leaky relu** (methods GENERATED from `_UnconditionalPlanar`, `activation = "leaky_relu"`): for every
+`n`, `w ≠ 0`, `u`, `b`, slope `0 < s ≤ 1`, at every `x` off the kink `w·x + b = 0`, the Jacobian of the generated
+forward map is `J = I + û ψᵀ` with `ψ = σ·w`, `σ = s` if `w·x + b < 0` else `1`, and the returned
+`log|1 + û·ψ|` is `log |det J|`.  (On the kink the map is not differentiable unless `s = 1`.) -/
+theorem planar_ld {C : Type} {n : ℕ} (p : UnconditionalPlanar ℝ) (hw : p.weight.length = n)
+    (hu : p._act_scale.length = n) (hne : Jnp.dot p.weight p.weight ≠ 0) {s : ℝ} (hs0 : 0 < s) (hs1 : s ≤ 1) :
+    (Planar.lreluBij p s : Bij (List ℝ) C ℝ).LdCorrectVecWith n
+      {v | VecLd.toVec n p.weight ⬝ᵥ v + p.bias ≠ 0}
+      (fun v => 1 + Matrix.replicateCol Unit (VecLd.toVec n p.get_act_scale) *
+        Matrix.replicateRow Unit ((if VecLd.toVec n p.weight ⬝ᵥ v + p.bias < 0 then s else 1) • VecLd.toVec n p.weight)) :=
+  PlanarPf.lrelu_ld ⟨hw, hu, hne⟩ hs0 hs1
+
+/-- the determinant in `planar_ld` / `planar_tanh_ld`, by Mathlib's matrix determinant lemma:
+`det (I + û ψᵀ) = 1 + ψ·û` -/
+theorem planar_jac_det {n : ℕ} (û ψ : Fin n → ℝ) :
+    (1 + Matrix.replicateCol Unit û * Matrix.replicateRow Unit ψ).det = 1 + ψ ⬝ᵥ û :=
+  PlanarPf.jac_det û ψ
+
+/-- **Planar, tanh** (GENERATED, `activation = "tanh"`; the library implements only the forward methods):
+at EVERY `x ∈ ℝⁿ` the generated forward map has Fréchet derivative `J = I + û ψᵀ`, `ψ = (1 − tanh²(w·x+b))·w`,
+`det J = 1 + û·ψ > 0`, the returned log-det is `log |det J|`, and the returned point is `transform x`. -/
+theorem planar_tanh_ld {n : ℕ} (p : UnconditionalPlanar ℝ) (hw : p.weight.length = n)
+    (hu : p._act_scale.length = n) (hne : Jnp.dot p.weight p.weight ≠ 0) (v : Fin n → ℝ) :
+    HasFDerivAt (VecLd.coordMap n p.transform_tanh)
+      (VecLd.matCLM (1 + Matrix.replicateCol Unit (VecLd.toVec n p.get_act_scale) * Matrix.replicateRow Unit
+        ((1 - Real.tanh (VecLd.toVec n p.weight ⬝ᵥ v + p.bias) ^ 2) • VecLd.toVec n p.weight))) v ∧
+    (∀ v' : Fin n → ℝ, (p.transform_tanh (List.ofFn v')).length = n) ∧
+    0 < (1 + Matrix.replicateCol Unit (VecLd.toVec n p.get_act_scale) * Matrix.replicateRow Unit
+        ((1 - Real.tanh (VecLd.toVec n p.weight ⬝ᵥ v + p.bias) ^ 2) • VecLd.toVec n p.weight)).det ∧
+    (p.transform_and_log_det_tanh (List.ofFn v)).2 =
+      Real.log |(1 + Matrix.replicateCol Unit (VecLd.toVec n p.get_act_scale) * Matrix.replicateRow Unit
+        ((1 - Real.tanh (VecLd.toVec n p.weight ⬝ᵥ v + p.bias) ^ 2) • VecLd.toVec n p.weight)).det| ∧
+    (p.transform_and_log_det_tanh (List.ofFn v)).1 = p.transform_tanh (List.ofFn v) :=
+  PlanarPf.tanh_ld ⟨hw, hu, hne⟩ v
+
+/-- Planar, leaky relu: the log-det returned with the inverse is minus the forward one at the preimage, for
+every `x ∈ ℝⁿ` (the kink included: both sides then use slope 1). -/
+theorem planar_ld_antisym {C : Type} {n : ℕ} (p : UnconditionalPlanar ℝ) (hw : p.weight.length = n)
+    (hu : p._act_scale.length = n) (hne : Jnp.dot p.weight p.weight ≠ 0) {s : ℝ} (hs0 : 0 < s) (hs1 : s ≤ 1) :
+    (Planar.lreluBij p s : Bij (List ℝ) C ℝ).LdAntisym {x | x.length = n} :=
+  PlanarPf.lrelu_ld_antisym ⟨hw, hu, hne⟩ hs0 hs1
+
+/-- **TriangularAffine** (hand model): for `triangular` lower / upper triangular (as `lower` says) `n × n` with
+non-zero diagonal of either sign, the forward map `x ↦ A x + loc` has Fréchet derivative `toLin' A` everywhere,
+`det A = ∏ Aᵢᵢ ≠ 0` (Mathlib's `det_of_isLowerTriangular` / `det_of_isUpperTriangular`), and the returned
+`Σ log|Aᵢᵢ|` is `log |det A|`. -/
+theorem triangular_ld {C : Type} {n : ℕ} {t : Tri.TriAffine ℝ} (h : TriPf.TriWF n t) :
+    (t.toBij : Bij (List ℝ) C ℝ).LdCorrectVecWith n Set.univ (fun _ => TriPf.toMat n t.triangular) :=
+  TriPf.triangular_ld h
+
+/-- the determinant in `triangular_ld` is the product of the diagonal -/
+theorem triangular_det {n : ℕ} {t : Tri.TriAffine ℝ} (h : TriPf.TriWF n t) :
+    (TriPf.toMat n t.triangular).det = ∏ i, TriPf.toMat n t.triangular i i ∧
+      ∀ i : Fin n, TriPf.toMat n t.triangular i i ≠ 0 := h.det
+
+theorem triangular_ld_antisym {C : Type} (t : Tri.TriAffine ℝ) (D : Set (List ℝ)) :
+    (t.toBij : Bij (List ℝ) C ℝ).LdAntisym D := TriPf.triangular_ld_antisym t D
+
+/-- … for the constructor's matrix, every real raw diagonal parameter, either orientation, every dimension -/
+theorem triangular_of_raw_ld {C : Type} {n : ℕ} (lower : Bool) (raw : List ℝ) (arr : List (List ℝ))
+    (loc : List ℝ) (hsq : TriPf.Square n arr) (hr : raw.length = n) (hl : loc.length = n) :
+    ((Tri.ofRaw lower raw arr loc).toBij : Bij (List ℝ) C ℝ).LdCorrectVec n Set.univ :=
+  (TriPf.triangular_ld (TriPf.ofRaw_wf lower raw arr loc hsq hr hl)).ldCorrectVec
+
+/-- non-vacuity: the leaky-relu layer `w = (1, 0)`, `u = (0, 3)`, `b = 0`, slope `1/2` at the point `(2, 5)` (off the kink) -/
+theorem planar_ld_instance :
+    ∃ J : (Fin 2 → ℝ) →L[ℝ] (Fin 2 → ℝ),
+      HasFDerivAt (VecLd.coordMap 2 (fun x => (⟨[1, 0], [0, 3], (0 : ℝ)⟩ : UnconditionalPlanar ℝ).transform_lrelu (1 / 2) x)) J ![2, 5] ∧
+      J.det ≠ 0 ∧
+      ((⟨[1, 0], [0, 3], (0 : ℝ)⟩ : UnconditionalPlanar ℝ).transform_and_log_det_lrelu (1 / 2) (List.ofFn ![2, 5])).2
+        = Real.log |J.det| := by
+  have h := (planar_ld (C := Unit) (n := 2) ⟨[1, 0], [0, 3], (0 : ℝ)⟩ rfl rfl (by simp [ParamsPf.jdot_eq])
+    (s := 1 / 2) (by norm_num) (by norm_num)).ldCorrectVec ![2, 5]
+    (by simp [VecLd.toVec, dotProduct, Fin.sum_univ_two]) ()
+  obtain ⟨J, h1, _, h3, h4⟩ := h
+  exact ⟨J, h1, h3, h4⟩
+
+/-! ## ===== BEGIN network bijections: triangular Jacobians of Coupling, MaskedAutoregressive, BNAF =====
+
+Statements about the hand-written models `Model/Masks.lean` / `Model/NetInverse.lean` at `ℝ` (helpers in
+`Proofs/NetLogDet.lean`).  The oracle is Mathlib's `HasFDerivAt` of the model's FORWARD map read in coordinates,
+`NetLogDet.coords n F = fun (w : Fin n → ℝ) i => nth (F (List.ofFn w)) i`; the value compared with `log |det J|` is the
+second component of the model's `transform_and_log_det`, i.e. the SUM of the per-coordinate transformer log-dets that
+`Vmap(...).transform_and_log_det` returns.  Differentiability of the whole forward map at the point is a HYPOTHESIS
+(`hJ`): it holds wherever the conditioner network and the transformers are differentiable (everywhere for smooth
+activations, off the kinks for `relu`); the per-coordinate scalar facts (`hd`) are exactly C02's leaf statements
+(`LdCorrectWith`) for the transformer with the parameters the network computes at that point. -/
+section NetworkLogDets
+open Masks MasksPf
+
+/-- **the algebraic core**: a map `ℝⁿ → ℝⁿ` that is Fréchet differentiable at `x` and whose output `i` does not
+change when input `j > i` moves along the coordinate line through `x` has a LOWER-TRIANGULAR Jacobian matrix at `x`
+(entries `J eⱼ i`), the diagonal entries are the own-coordinate partial derivatives, and
+`det J = ∏ᵢ ∂fᵢ/∂xᵢ`. -/
+theorem det_lowerTriangular_of_dependency {n : ℕ} (f : (Fin n → ℝ) → Fin n → ℝ) (x : Fin n → ℝ)
+    (J : (Fin n → ℝ) →L[ℝ] (Fin n → ℝ)) (hJ : HasFDerivAt f J x)
+    (hdep : ∀ i j : Fin n, i < j → ∀ t, f (Function.update x j t) i = f x i) :
+    (∀ i j : Fin n, i < j → J (Pi.single j 1) i = 0) ∧
+    (∀ i, HasDerivAt (fun t => f (Function.update x i t) i) (J (Pi.single i 1) i) (x i)) ∧
+    J.det = ∏ i, J (Pi.single i 1) i :=
+  NetLogDet.det_lowerTriangular_of_dependency f x J hJ hdep
+
+/-- **`coupling_logdet`** — EVERY conditioner function, first-block size `d ≤ n`, transformer family, condition and
+point `v` at which the forward map is differentiable: the Jacobian is block lower triangular `[[I, 0], [*, diag T'ᵢ]]`
+(`coupling_dependency`), so `det J = ∏_{i ≥ d} T'ᵢ ≠ 0`, and the log-det the layer returns is `log |det J|`.
+`dT i` = derivative at `v i` of the scalar transformer of coordinate `i ≥ d`, taken with the parameter row `i - d`
+the conditioner computes from the first block of `v`. -/
+theorem coupling_logdet (d n : ℕ) (hdn : d ≤ n) (cnd : List ℝ → List ℝ) (tf : List ℝ → Bij ℝ Unit ℝ) (cond : List ℝ)
+    (v : Fin n → ℝ) (J : (Fin n → ℝ) →L[ℝ] (Fin n → ℝ))
+    (hJ : HasFDerivAt (NetLogDet.coords n fun x => (couplingBij d cnd tf).fwd x cond) J v)
+    (dT : ℕ → ℝ)
+    (hd : ∀ (i : Fin n), d ≤ (i : ℕ) → ∀ ps : List ℝ,
+      (reshapeRows (n - d) (cnd ((List.ofFn v).take d ++ cond)))[(i : ℕ) - d]? = some ps →
+      HasDerivAt (fun t => (tf ps).fwd t ()) (dT i) (v i) ∧ dT i ≠ 0 ∧
+        ((tf ps).fwdLd (v i) ()).2 = Real.log |dT i|) :
+    J.det = ∏ i : Fin n, (if (i : ℕ) < d then 1 else dT i) ∧ J.det ≠ 0 ∧
+      ((couplingBij d cnd tf).fwdLd (List.ofFn v) cond).2 = Real.log |J.det| :=
+  NetLogDet.coupling_logdet d n hdn cnd tf cond v J hJ dT hd
+
+/-- **`coupling_affine_logdet`** — `coupling_logdet` with NO Jacobian hypothesis for the affine transformer:
+`tf ps = Affine(loc ps, scale ps)` (the GENERATED `Affine`; flowjax: `loc = ps[0]`, `scale = softplus(ps[1])`), any
+conditioner function whose location / scale outputs are differentiable in the input (`NetLogDet.CondDiff`), any split
+`d ≤ n`, any condition, non-vanishing scale.  At EVERY point `v` the Fréchet derivative `J` of the forward map exists,
+`det J = ∏_{i ≥ d} scaleᵢ(v) ≠ 0` and the returned log-det is `log |det J|`. -/
+theorem coupling_affine_logdet (d n : ℕ) (hdn : d ≤ n) (cnd : List ℝ → List ℝ) (loc scale : List ℝ → ℝ)
+    (hs : ∀ ps, scale ps ≠ 0) (c : List ℝ) (hc : NetLogDet.CondDiff d n cnd loc scale c) (v : Fin n → ℝ) :
+    ∃ J : (Fin n → ℝ) →L[ℝ] (Fin n → ℝ),
+      HasFDerivAt (NetLogDet.coords n fun x => (couplingBij d cnd (NetLogDet.affineFamily loc scale)).fwd x c) J v ∧
+      J.det = ∏ i : Fin n, (if (i : ℕ) < d then 1 else scale (NetLogDet.rowAt d n cnd c v (i - d))) ∧ J.det ≠ 0 ∧
+      ((couplingBij d cnd (NetLogDet.affineFamily loc scale)).fwdLd (List.ofFn v) c).2 = Real.log |J.det| :=
+  NetLogDet.coupling_affine_logdet d n hdn cnd loc scale hs c hc v
+
+/-- **`maf_logdet`** — every well-shaped masked network (all raw weights, biases, activation, sizes, both rank
+branches), transformer family, condition and point `v` at which the forward map is differentiable: the Jacobian is
+lower triangular (`maf_autoregressive`) with diagonal `T'ᵢ`, so `det J = ∏ᵢ T'ᵢ ≠ 0`, and the returned log-det is
+`log |det J|`.  `d i` = derivative at `v i` of the scalar transformer with parameter row `i` computed at `v`. -/
+theorem maf_logdet (N : MafNet ℝ) (hN : N.WellShaped) (tf : List ℝ → Bij ℝ Unit ℝ) (cond : List ℝ)
+    (v : Fin N.dim → ℝ) (J : (Fin N.dim → ℝ) →L[ℝ] (Fin N.dim → ℝ))
+    (hJ : HasFDerivAt (NetLogDet.coords N.dim fun x => (mafBij N tf).fwd x cond) J v)
+    (d : Fin N.dim → ℝ)
+    (hd : ∀ (i : Fin N.dim) (ps : List ℝ), (N.params (List.ofFn v) cond)[(i : ℕ)]? = some ps →
+      HasDerivAt (fun t => (tf ps).fwd t ()) (d i) (v i) ∧ d i ≠ 0 ∧
+        ((tf ps).fwdLd (v i) ()).2 = Real.log |d i|) :
+    J.det = ∏ i, d i ∧ J.det ≠ 0 ∧ ((mafBij N tf).fwdLd (List.ofFn v) cond).2 = Real.log |J.det| :=
+  NetLogDet.maf_logdet N hN tf cond v J hJ d hd
+
+/-- inverse log-dets: `Coupling.inverse_and_log_det(transform(x))[1] = -transform_and_log_det(x)[1]` whenever every
+scalar transformer has that property on `D₁` (C02's `…_ld_antisym` leaf statements) -/
+theorem coupling_ld_antisym (d : ℕ) (cnd : List ℝ → List ℝ) (tf : List ℝ → Bij ℝ Unit ℝ) (D₁ : Set ℝ)
+    (htf : ∀ ps, (tf ps).LdAntisym D₁) :
+    (couplingBij d cnd tf).LdAntisym {x | ∀ t ∈ x.drop d, t ∈ D₁} :=
+  NetLogDet.coupling_ld_antisym d cnd tf D₁ htf
+
+/-- `MaskedAutoregressive.inverse_and_log_det` is `x = inverse(y); (x, -transform_and_log_det(x)[1])`: minus the
+forward value at the preimage, by the sequential inverse's correctness (C01 `maf_inverse_correct`) -/
+theorem maf_ld_antisym (N : MafNet ℝ) (hN : N.WellShaped) (tf : List ℝ → Bij ℝ Unit ℝ) (D₁ E₁ : Set ℝ)
+    (htf : ∀ ps, (tf ps).Lawful D₁ E₁) :
+    (mafBij N tf).LdAntisym {x | x.length = N.dim ∧ ∀ t ∈ x, t ∈ D₁} :=
+  NetLogDet.maf_ld_antisym N hN tf D₁ E₁ htf
+
+/-- `BlockAutoregressiveNetwork.transform` is Fréchet differentiable at EVERY point when the activation is
+differentiable — all well-shaped raw weights / biases / raw scales, every depth, block_dim, condition (so the
+differentiability hypothesis of the two theorems above is not needed for BNAF). -/
+theorem bnaf_differentiable (act : ℝ → ℝ) (hact : ∀ z, DifferentiableAt ℝ act z)
+    {dim depth bd : ℕ} {Ls : List (BnafLayer ℝ)} {condLinear : Option (List (List ℝ))}
+    (hok : NetLawful.BnafOK dim depth bd Ls condLinear) (cond : List ℝ) (v : Fin dim → ℝ) :
+    DifferentiableAt ℝ (NetLogDet.coords dim fun x => bnafTransform act Ls condLinear x cond) v :=
+  NetLogDet.bnaf_differentiable act hact hok cond v
+
+/-- **`bnaf_logdet_partial`** — the Jacobian side for `BlockAutoregressiveNetwork`, no analytic hypothesis left:
+for an activation differentiable with positive derivative, all well-shaped raw weights / biases / raw scales, every
+depth, block_dim, condition and EVERY point `v`, the Fréchet derivative `J` of `transform` exists, its matrix is lower
+triangular with the strictly positive diagonal of C09 `bnaf_jacobian`, so `det J = ∏ᵢ ∂yᵢ/∂xᵢ > 0` and
+`log |det J| = Σᵢ log (∂yᵢ/∂xᵢ)`.
+PARTIAL: what is missing is a model of `transform_and_log_det`'s own computation (the `logmatmulexp` chain over the
+3-D block log-Jacobians with `-inf` off the activation diagonals, `.sum()` over the `dim` blocks) and the identity
+"that value `= Σᵢ log (∂yᵢ/∂xᵢ)`" (the product of the diagonal blocks IS `∂yᵢ/∂xᵢ` — `MasksPf.curveInv_layer` —
+but the log-space accumulation is not modelled); on the real code the returned value is compared with
+`slogdet(jacfwd)` by the correspondence. -/
+theorem bnaf_logdet_partial (act : ℝ → ℝ) (hact : ∀ z, DifferentiableAt ℝ act z ∧ 0 < deriv act z)
+    {dim depth bd : ℕ} {Ls : List (BnafLayer ℝ)} {condLinear : Option (List (List ℝ))}
+    (hok : NetLawful.BnafOK dim depth bd Ls condLinear) (cond : List ℝ) (v : Fin dim → ℝ) :
+    ∃ (J : (Fin dim → ℝ) →L[ℝ] (Fin dim → ℝ)) (d : Fin dim → ℝ),
+      HasFDerivAt (NetLogDet.coords dim fun x => bnafTransform act Ls condLinear x cond) J v ∧
+      (∀ i, 0 < d i ∧
+        HasDerivAt (fun t => nth (bnafTransform act Ls condLinear ((List.ofFn v).set i t) cond) i) (d i) (v i)) ∧
+      (∀ i j : Fin dim, i < j → J (Pi.single j 1) i = 0) ∧
+      J.det = ∏ i, d i ∧ 0 < J.det ∧ Real.log |J.det| = ∑ i, Real.log (d i) :=
+  NetLogDet.bnaf_det' act hact hok cond v
+
+/-! ### non-vacuity -/
+
+/-- a coupling layer on `ℝ²` (`d = 1`) with the NON-LINEAR conditioner `x₀ ↦ x₀² + 1`:
+`(x₀, x₁) ↦ (x₀, 2x₁ + x₀² + 1)` is differentiable everywhere, `det J = 2`, returned log-det `= log |det J|`. -/
+theorem coupling_logdet_instance (v : Fin 2 → ℝ) :
+    ∃ J : (Fin 2 → ℝ) →L[ℝ] (Fin 2 → ℝ),
+      HasFDerivAt (NetLogDet.coords 2 fun x =>
+        (couplingBij 1 (fun l => l.map fun a => a * a + 1) NetLawful.exampleFamily).fwd x []) J v ∧
+      J.det = 2 ∧
+      ((couplingBij 1 (fun l => l.map fun a => a * a + 1) NetLawful.exampleFamily).fwdLd (List.ofFn v) []).2
+        = Real.log |J.det| := by
+  have hF : (NetLogDet.coords 2 fun x => (couplingBij 1 (fun l => l.map fun a => a * a + 1) NetLawful.exampleFamily).fwd x [])
+      = fun w => ![w 0, w 1 * 2 + (w 0 * w 0 + 1)] := by
+    funext w i
+    fin_cases i <;>
+      simp [NetLogDet.coords, nth, couplingBij, couplingTransform, NetLawful.exampleFamily, reshapeRows, Affine.toBij,
+        Affine.transform, List.ofFn_succ, List.range_succ]
+  have hdiff : DifferentiableAt ℝ (fun w : Fin 2 → ℝ => ![w 0, w 1 * 2 + (w 0 * w 0 + 1)]) v := by
+    rw [differentiableAt_pi]
+    intro i
+    fin_cases i <;> simp <;> fun_prop
+  refine ⟨_, by rw [hF]; exact hdiff.hasFDerivAt, ?_⟩
+  obtain ⟨h1, _, h3⟩ := coupling_logdet 1 2 (by norm_num) (fun l => l.map fun a => a * a + 1) NetLawful.exampleFamily [] v _
+    (by rw [hF]; exact hdiff.hasFDerivAt) (fun _ => 2) (fun i _ ps _ => NetLogDet.exampleFamily_ld ps (v i))
+  refine ⟨?_, h3⟩
+  rw [h1]
+  simp [Fin.prod_univ_two]
+
+/-- the well-shaped masked net `MasksPf.mafExample` (dim 2, width 2, depth 1; it computes the parameters
+`(0, 2x₀)`) with the affine family: `(x₀, x₁) ↦ (2x₀, 2x₁ + 2x₀)`, `det J = 4`, returned log-det `= log |det J|`. -/
+theorem maf_logdet_instance (v : Fin 2 → ℝ) :
+    ∃ J : (Fin 2 → ℝ) →L[ℝ] (Fin 2 → ℝ),
+      HasFDerivAt (NetLogDet.coords 2 fun x => (mafBij mafExample NetLawful.exampleFamily).fwd x []) J v ∧
+      J.det = 4 ∧ ((mafBij mafExample NetLawful.exampleFamily).fwdLd (List.ofFn v) []).2 = Real.log |J.det| := by
+  have hW : mafExample.WellShaped := by
+    refine ⟨rfl, rfl, ?_⟩
+    intro l hw hb
+    have hl : l < 2 := hw
+    interval_cases l
+    · exact ⟨2, 2, rfl, rfl, ⟨rfl, by intro row hrow; simp [mafExample] at hrow; subst hrow; rfl⟩, rfl⟩
+    · exact ⟨2, 2, rfl, rfl, ⟨rfl, by intro row hrow; simp [mafExample] at hrow; subst hrow; rfl⟩, rfl⟩
+  have hm : mafExample.masks = [[[true, false], [true, false]], [[false, false], [true, true]]] := by decide
+  have hP : ∀ a b : ℝ, mafExample.params [a, b] [] = [[0], [a + a]] := by
+    intro a b
+    simp only [MafNet.params, MafNet.flatParams, MafNet.layers, hm]
+    simp [mafExample, mkLayers, mlpForward, MaskedLinear.apply, MaskedLinear.unwrapW, whereMask, linearApply,
+      Jnp.dot, Jnp.sum, reshapeRows, List.range_succ]
+  have hF : (NetLogDet.coords 2 fun x => (mafBij mafExample NetLawful.exampleFamily).fwd x [])
+      = fun w => ![w 0 * 2, w 1 * 2 + (w 0 + w 0)] := by
+    funext w i
+    have e : List.ofFn w = [w 0, w 1] := by simp [List.ofFn_succ]
+    simp only [NetLogDet.coords, mafBij, MafNet.transform, e, hP]
+    fin_cases i <;> simp [nth, NetLawful.exampleFamily, Affine.toBij, Affine.transform]
+  have hdiff : DifferentiableAt ℝ (fun w : Fin 2 → ℝ => ![w 0 * 2, w 1 * 2 + (w 0 + w 0)]) v := by
+    rw [differentiableAt_pi]
+    intro i
+    fin_cases i <;> simp <;> fun_prop
+  have hJ : HasFDerivAt (NetLogDet.coords mafExample.dim fun x => (mafBij mafExample NetLawful.exampleFamily).fwd x [])
+      (fderiv ℝ (fun w : Fin 2 → ℝ => ![w 0 * 2, w 1 * 2 + (w 0 + w 0)]) v) v := by
+    show HasFDerivAt (NetLogDet.coords 2 fun x => (mafBij mafExample NetLawful.exampleFamily).fwd x []) _ v
+    rw [hF]; exact hdiff.hasFDerivAt
+  refine ⟨_, hJ, ?_⟩
+  obtain ⟨h1, _, h3⟩ := maf_logdet mafExample hW NetLawful.exampleFamily [] v _ hJ (fun _ => 2)
+    (fun i ps _ => NetLogDet.exampleFamily_ld ps (v i))
+  refine ⟨h1.trans ?_, h3⟩
+  show ∏ i : Fin 2, (2 : ℝ) = 4
+  norm_num [Fin.prod_univ_two]
+
+/-- `MasksPf.bnafExample` (dim 2, depth 1, block_dim 1) with the activation `z ↦ z + z` (derivative `2 > 0`)
+satisfies every hypothesis of `bnaf_logdet_partial`: at every point the Jacobian exists, is lower triangular, `det J > 0`. -/
+theorem bnaf_logdet_instance (v : Fin 2 → ℝ) :
+    ∃ (J : (Fin 2 → ℝ) →L[ℝ] (Fin 2 → ℝ)),
+      HasFDerivAt (NetLogDet.coords 2 fun x => bnafTransform (fun z => z + z) bnafExample none x []) J v ∧
+      J (Pi.single 1 1) 0 = 0 ∧ 0 < J.det := by
+  have hact : ∀ z : ℝ, DifferentiableAt ℝ (fun z : ℝ => z + z) z ∧ 0 < deriv (fun z : ℝ => z + z) z := by
+    intro z
+    have h : HasDerivAt (fun z : ℝ => z + z) (1 + 1) z := (hasDerivAt_id z).add (hasDerivAt_id z)
+    exact ⟨h.differentiableAt, by rw [h.deriv]; norm_num⟩
+  obtain ⟨J, d, hJ, _, hz, _, hpos, _⟩ := bnaf_logdet_partial _ hact NetLawful.bnafExample_ok [] v
+  exact ⟨J, hJ, hz 0 1 (by decide), hpos⟩
+
+end NetworkLogDets
+/-! ## ===== END network bijections ===== -/
 
 end C02
